@@ -443,6 +443,86 @@ Unit("C01", "q_to_R round trip on random geometries [real code]", concrete=_real
                   "1-3 Wannier functions with centres inside / outside the cell / coinciding, tolerances 1e-8..1e-2, scalar / vector / tensor valued Hermitian data")
 
 
+
+@unit("C01", "WignerSeitz.__init__: every mesh point is searched over ALL its replicas R0 + (a*m1, b*m2, c*m3), |a|,|b|,|c| <= n, with matching Cartesian vectors", expect_min=4,
+      scope="shape:meshes 1x3x2, 2x2x2, 4x2x1, 3x1x1; search sizes 3 (default), 1 and (2,1,3); triclinic lattice")
+def _ws_init(U):
+    import itertools as it
+    NP, RV, WS, g = build(U, NP=rnp)
+
+    def body():
+        latt = rnp.array([[3.0, 0.25, 0.0], [0.5, 2.75, 0.125], [0.0, 0.5, 3.25]])       # dyadic entries: products with integers are exact
+        ok_shape = ok_set = ok_cart = ok_mesh = True
+        for mesh in ((1, 3, 2), (2, 2, 2), (4, 2, 1), (3, 1, 1)):
+            for size in (None, 1, (2, 1, 3)):
+                ws = WS(latt, mp_grid=mesh, tolerance=1e-5) if size is None else WS(latt, mp_grid=mesh, ws_search_size=size, tolerance=1e-5)
+                n = (3, 3, 3) if size is None else ((size,) * 3 if isinstance(size, int) else size)
+                R0 = [tuple(int(x) for x in v) for v in ws.iRvec0]
+                ok_mesh = ok_mesh and sorted(R0) == sorted(it.product(*[range(m) for m in mesh]))
+                nrep = (2 * n[0] + 1) * (2 * n[1] + 1) * (2 * n[2] + 1)
+                iS, cS = rnp.asarray(ws.iRvec_search), rnp.asarray(ws.cRvec_search)
+                ok_shape = ok_shape and iS.shape == (len(R0), nrep, 3) and cS.shape == iS.shape
+                if not ok_shape:
+                    break
+                for i, r0 in enumerate(R0):
+                    want = {(r0[0] + a * mesh[0], r0[1] + b * mesh[1], r0[2] + c * mesh[2]) for a in range(-n[0], n[0] + 1) for b in range(-n[1], n[1] + 1) for c in range(-n[2], n[2] + 1)}
+                    got = [tuple(int(x) for x in v) for v in iS[i]]
+                    ok_set = ok_set and set(got) == want and len(got) == len(want)
+                ok_cart = ok_cart and bool(rnp.array_equal(cS, iS.dot(latt)))
+        U.ensure("iRvec0 lists every point of the mesh box exactly once", ok_mesh)
+        U.ensure("one row of candidates per mesh point, (2n1+1)(2n2+1)(2n3+1) candidates each", ok_shape)
+        U.ensure("the candidates of a mesh point are exactly its replicas within the search size, both signs alike (so that R and -R are found alike)", ok_shape and ok_set)
+        U.ensure("cRvec_search is iRvec_search in Cartesian coordinates, entry by entry (the distance of a candidate is the distance of THAT vector)", ok_shape and ok_cart)
+    U.run(body, check_feasible=False)
+
+
+@unit("C01", "Rvectors.set_Rvec: the common R list is the duplicate-free union and every pair's index list points at its own vectors", expect_min=3,
+      scope="shape:Wigner-Seitz search replaced by its contract (arbitrary R lists per shift, components up to 9 on meshes with a one-point direction); 2-3 centres")
+def _set_rvec_index(U):
+    NP, RV, WS, g = build(U, NP=rnp)
+    tables = {}
+
+    class StubWS:
+        """contract of WignerSeitz.__call__ as far as set_Rvec relies on it: some list of integer vectors, their degeneracies and their mesh images"""
+        def __init__(self, lattice, mp_grid, tolerance=None, **kw):
+            self.mp = rnp.array(mp_grid)
+
+        def __call__(self, shift_reduced):
+            key = tuple(rnp.round(shift_reduced, 6))
+            R = rnp.array(tables["by_shift"](key), dtype=int)
+            return R, rnp.ones(len(R), dtype=int), R % self.mp
+    for v in vars(RV).values():
+        fr = getattr(v, "__globals__", None)
+        if fr is not None:
+            fr["WignerSeitz"] = StubWS
+
+    def body():
+        ok_union = ok_index = ok_mod = True
+        cases = [((1, 3, 2), [[0.05, 0.1, 0.2], [2.75, 0.4, 0.1], [0.05, 0.1, 0.2]]), ((2, 2, 2), [[0, 0, 0], [0.1, 0.2, 3.3]]), ((4, 1, 1), [[0, 0, 0], [-2.6, 0.3, 2.2], [0.4, -3.2, 0.1]])]
+        for ic, (mesh, cen) in enumerate(cases):
+            def by_shift(key, ic=ic, mesh=mesh):
+                # overlapping, differently ordered sub-lists of one pool with long vectors along every direction (any hashing / packing of the
+                # components that is not injective on this pool pairs a vector with the wrong entry)
+                h = int(round(sum((j + 1) * 1000 * x for j, x in enumerate(key)))) + ic
+                pool = [(a, b, c) for a in (0, 1, -1) for b in (0, 1, -1) for c in range(-9, 10)] + [(a, b, 0) for a in (-9, -5, 5, 9) for b in range(-9, 10, 3)]
+                sel = [R for j, R in enumerate(pool) if (j * 7 + h) % 3 != 0]
+                r = h % len(sel)
+                return sel[r:] + sel[:r]
+            tables["by_shift"] = by_shift
+            rv = RV(lattice=rnp.diag([3.0, 2.0, 4.0]), shifts_left_red=rnp.array(cen, dtype=float))
+            rv.set_Rvec(mp_grid=rnp.array(mesh), ws_tolerance=1e-3)
+            allR = [tuple(int(x) for x in R) for R in rnp.asarray(rv.iRvec)]
+            lists = [[tuple(int(x) for x in R) for R in L] for L in rv.iRvec_list]
+            ok_union = ok_union and len(set(allR)) == len(allR) and set(allR) == {R for L in lists for R in L}
+            for L, idx in zip(lists, rv.iRvec_index_list):
+                idx = [int(j) for j in idx]
+                ok_index = ok_index and len(idx) == len(L) and all(0 <= j < len(allR) and allR[j] == R for j, R in zip(idx, L))
+            ok_mod = ok_mod and len(rv.iRvec_list) == len(rv.Ndegen_list) == len(rv.iRvec_mod_list) == len(rv.iRvec_index_list)
+        U.ensure("iRvec is the union of the per-shift lists, each vector once", ok_union)
+        U.ensure("iRvec[iRvec_index_list[s][j]] == iRvec_list[s][j] for every shift s and entry j, however large the components", ok_index)
+        U.ensure("one list of vectors / degeneracies / mesh images / indices per distinct shift", ok_mod)
+    U.run(body, check_feasible=False)
+
 @unit("C01", "iterate_nd / iterate3dpm: the search box of the Wigner-Seitz construction is [-n, n]^3, closed under negation", expect_min=2, scope="shape:sizes up to (3,2,1) in 1-3 dimensions; offsets")
 def _iterate(U):
     import itertools as it
